@@ -544,6 +544,10 @@ pub fn corpus() -> Vec<Plan> {
         p("odd_kinds", true, true, vec![addu("bool"), add("char"), addu("f64"), add("tokarr"), addu("tup"), add("vecstr"), close(Simple), rm(1), rm(3), addu("i128"), add("tokarr"), addu("char"), close(Simple), rm(5), add("vecstr"), addu("bool"), close(Simple)]),
         // field names that are also locals / parameters / fields of the generated code
         p("odd_names", true, false, vec![Req::Add { ty: "toka8".into(), uninit: false, name: Some("this".into()), via_copy: false }, Req::Add { ty: "u32".into(), uninit: false, name: Some("value".into()), via_copy: false }, Req::Add { ty: "string".into(), uninit: false, name: Some("other".into()), via_copy: false }, close(Simple), rm(0), Req::Add { ty: "tokb8".into(), uninit: false, name: Some("result".into()), via_copy: false }, Req::Add { ty: "u16".into(), uninit: true, name: Some("size".into()), via_copy: false }, close(Simple), rm(1), rm(2), rm(3), Req::Add { ty: "vecu32".into(), uninit: false, name: Some("source".into()), via_copy: false }, close(Simple)]),
+        // more than 16 fields alive, then a variant that removes most of them
+        p("many_fields_shrink", true, false, vec![add("toka8"), addu("u32"), add("string"), addu("u64"), add("toka3"), addu("u16"), add("tokb8"), addu("u8"), add("vecu32"), addu("u128"), add("toka16"), addu("p12"), add("boxtok"), addu("u8x3"), add("tokah"), addu("al16"), add("opttok"), addu("f64"), close(Simple), rm(0), rm(2), rm(4), rm(5), rm(6), rm(7), rm(8), rm(10), rm(11), rm(12), rm(13), rm(14), rm(15), rm(16), rm(17), add("toka8"), addu("u16"), close(Simple)]),
+        // a field comes back under its old name and type after part of its old slot went to another field
+        p("readd_same_slot", true, true, vec![add("u64"), addn("u64", "score"), close(Simple), rm(1), close(Simple), add("u32"), add("toka3"), close(Simple), rm(2), close(Simple), addn("u64", "score"), close(Simple), rm(4), addn("u64", "score"), close(Simple)]),
         // zero-size only
         p("zst_only", true, true, vec![add("unit"), add("tokaz"), close(Simple), add("u64x0"), rm(0), close(Simple)]),
     ]
